@@ -33,6 +33,21 @@ Second hardening pass (neutral patches N5-N8):
   * `x in (a, b)` on a literal collection is cmp:In(x, tuple(a, b));  f"{x}" / "%d" % x / "{}".format(x) / format(x) are str(x);
   * arrays without elements (np.empty(0), np.zeros((0, 2)), np.array([])) are the one value EMPTY (`is_empty`);
   * a test written as a count of true elements (count_nonzero(m) > 0, m.sum(), len(nonzero(m)[0])) is any(m) (`truthy`).
+
+Met in three further rounds of independently written refactoring patches (stored as neutral/C18-N9..):
+
+  * `explore(..., pinned={flag: F.const(1)})` evaluates a function for one value of a flag (bool() / int() / arithmetic on it fold);
+    None / True / False compared with each other or with a pinned 0 / 1 are decided, so a helper that returns None "when there is none"
+    does not open infeasible regimes;
+  * helpers of *another* module of the package (`locate._helper(...)` with `from pyyeti import locate`, `from .m import _helper`) are followed;
+  * instances of record classes of the module (typing.NamedTuple, @dataclass, namedtuple) are their field values (`Rec`), `r.field` is the value;
+  * `match` statements are tried case by case like an if / elif chain (value, singleton, class(), wildcard, or-, capture and sequence patterns,
+    guards);
+  * in-place forms: `out=X` stores the call's value in X, np.putmask / np.place / np.copyto / np.add.at / np.subtract.at are item stores,
+    `X.sort()` / `.fill()` ... forget X; values handed to an opaque call *statement* are remembered (`escaped`): a rule must not conclude
+    "unchanged" for them;
+  * np.add / subtract / multiply / ... and operator.add ... are the arithmetic operators; tuple(x) / list(x) of known items are the items;
+    a local bound to a method (`level = idx.get_level_values`) calls that method.
 """
 from __future__ import annotations
 
@@ -356,6 +371,9 @@ _OP_CMP = {"ne": "NotEq", "eq": "Eq", "gt": "Gt", "ge": "GtE", "lt": "Lt", "le":
 _UF_BIT = {"bitwise_and": ast.BitAnd, "bitwise_or": ast.BitOr, "bitwise_xor": ast.BitXor}
 _UF_LOGICAL = {"logical_and": ast.BitAnd, "logical_or": ast.BitOr, "logical_xor": ast.BitXor}
 _OP_BIT = {"and_": ast.BitAnd, "or_": ast.BitOr, "xor": ast.BitXor}
+_UF_ARITH = {"add": ast.Add, "subtract": ast.Sub, "sub": ast.Sub, "multiply": ast.Mult, "mul": ast.Mult, "true_divide": ast.Div, "divide": ast.Div,
+             "truediv": ast.Div, "floor_divide": ast.FloorDiv, "floordiv": ast.FloorDiv, "mod": ast.Mod, "remainder": ast.Mod,
+             "left_shift": ast.LShift, "lshift": ast.LShift, "right_shift": ast.RShift, "rshift": ast.RShift}
 _LIST_MUTATORS = {"append", "extend", "insert", "pop", "remove", "clear", "sort", "reverse", "update", "add", "discard", "setdefault", "popitem"}
 EMPTY = F.sym("@empty")            # an array with no element (np.empty(0), np.zeros((0, 2)), np.array([]), ...)
 MAX_UNROLL = 16
@@ -412,6 +430,80 @@ def _is_public(m, name):
     return not name.startswith("_") and f is not None and ast.get_docstring(f) is not None
 
 
+class Rec(tuple):
+    """an instance of a NamedTuple / dataclass / namedtuple defined in the analysed module: its field values, by position and by name"""
+    fields = ()
+
+
+def _records(m):
+    """{class name: (field names, {field: default expression})} for the record classes of a module (typing.NamedTuple subclasses, @dataclass
+    classes, `X = namedtuple("X", ...)`)"""
+    if "_c18_records" not in m.__dict__:
+        out = {}
+        for st in m.tree.body:
+            if isinstance(st, ast.ClassDef):
+                bases = {dotted(b) for b in st.bases}
+                decos = {dotted(x.func if isinstance(x, ast.Call) else x) for x in st.decorator_list}
+                if bases & {"NamedTuple", "typing.NamedTuple"} or decos & {"dataclass", "dataclasses.dataclass"}:
+                    fields, dflt = [], {}
+                    for x in st.body:
+                        if isinstance(x, ast.AnnAssign) and isinstance(x.target, ast.Name):
+                            fields.append(x.target.id)
+                            if x.value is not None:
+                                dflt[x.target.id] = x.value
+                    out[st.name] = (fields, dflt)
+            elif isinstance(st, ast.Assign) and len(st.targets) == 1 and isinstance(st.targets[0], ast.Name) and isinstance(st.value, ast.Call) \
+                    and dotted(st.value.func) in ("namedtuple", "collections.namedtuple") and len(st.value.args) == 2:
+                spec = st.value.args[1]
+                names = None
+                if isinstance(spec, ast.Constant) and isinstance(spec.value, str):
+                    names = spec.value.replace(",", " ").split()
+                elif isinstance(spec, (ast.List, ast.Tuple)) and all(isinstance(e, ast.Constant) and isinstance(e.value, str) for e in spec.elts):
+                    names = [e.value for e in spec.elts]
+                if names:
+                    out[st.targets[0].id] = (names, {})
+        m.__dict__["_c18_records"] = out
+    return m.__dict__["_c18_records"]
+
+
+def _imports(ctx, rel):
+    """({alias: file of a module of the package}, {name: (file, function)}) for the top-level imports of `rel` that lead into the package"""
+    m = raw_module(ctx, rel)
+    if "_c18_imports" not in m.__dict__:
+        import os
+        mods, funcs = {}, {}
+
+        def path_of(dotted_name):
+            p = dotted_name.replace(".", "/")
+            for cand in (p + ".py", p + "/__init__.py"):
+                if os.path.exists(os.path.join(ctx.src.repo, cand)):
+                    return cand
+            return None
+
+        pkg = rel.split("/")[:-1]
+        for st in m.tree.body:
+            if isinstance(st, ast.Import):
+                for a in st.names:
+                    f = path_of(a.name)
+                    if f and a.asname:
+                        mods[a.asname] = f
+            elif isinstance(st, ast.ImportFrom):
+                base = pkg[:len(pkg) - (st.level - 1)] if st.level else []
+                prefix = ".".join(base + ([st.module] if st.module else []))
+                for a in st.names:
+                    full = (prefix + "." if prefix else "") + a.name
+                    f = path_of(full)
+                    if f:
+                        mods[a.asname or a.name] = f
+                    elif prefix and path_of(prefix):
+                        funcs[a.asname or a.name] = (path_of(prefix), a.name)
+        m.__dict__["_c18_imports"] = (mods, funcs)
+    return m.__dict__["_c18_imports"]
+
+
+_INPLACE_METHODS = {"sort", "fill", "resize", "partition", "put", "itemset", "setfield", "setflags"}
+
+
 def _str_of(x):
     return F.fn("call:str", need(x))
 
@@ -426,6 +518,7 @@ class PathEval(AutoEvaluator):
         self.raised = None
         self._bv = 0
         self._brk = self._cont = False
+        self.escaped = []          # values handed to calls whose result is thrown away (an opaque call statement may change them in place)
         self.module_consts = _consts(ctx, rel)
         a = fn.args
         for p in a.posonlyargs + a.args + a.kwonlyargs + ([a.vararg] if a.vararg else []) + ([a.kwarg] if a.kwarg else []):
@@ -472,6 +565,22 @@ class PathEval(AutoEvaluator):
             return
         if isinstance(st, ast.Expr) and isinstance(st.value, ast.Call) and self._list_method(st.value):
             return
+        if isinstance(st, ast.Expr) and isinstance(st.value, ast.Call):
+            c = st.value
+            if isinstance(c.func, ast.Attribute) and isinstance(c.func.value, ast.Name) and c.func.attr in _INPLACE_METHODS \
+                    and c.func.value.id in self.env and c.func.value.id not in self.pinned:
+                self.ev(c)
+                self.env[c.func.value.id] = Unknown(f"changed in place by .{c.func.attr}()")
+                return
+            v = self.ev(c)
+            u = unfn_m(v) if not isinstance(v, tuple) else None
+            if u is not None and u[0].startswith("call:") and not any(k.arg == "out" for k in c.keywords):
+                # an opaque call whose result is dropped: whatever it was given may have been changed in place
+                self.escaped.extend(x for x in u[1] if not isinstance(x, str))
+            return
+        if isinstance(st, ast.Match):
+            self._match(st)
+            return
         if isinstance(st, ast.AugAssign) and isinstance(st.op, ast.Add) and isinstance(st.target, ast.Name) \
                 and isinstance(st.value, (ast.List, ast.Tuple)) and isinstance(self.env.get(st.target.id), tuple):
             # L += [x]  on a local list: concatenation (the generic evaluator would add element by element)
@@ -484,6 +593,64 @@ class PathEval(AutoEvaluator):
             self._forget_mutated(st)
             return
         super().stmt(st)
+
+    # ---- match: the cases are tried in order like an if / elif chain on tests of the subject
+    def _pattern(self, subj, pat, binds):
+        """test expression (ast) for `subj` matching `pat`, True for an irrefutable pattern, None for a pattern this evaluator does not lower"""
+        loc = lambda n: ast.fix_missing_locations(ast.copy_location(n, pat))
+        if isinstance(pat, ast.MatchValue):
+            return loc(ast.Compare(left=subj, ops=[ast.Eq()], comparators=[pat.value]))
+        if isinstance(pat, ast.MatchSingleton):
+            return loc(ast.Compare(left=subj, ops=[ast.Is()], comparators=[ast.Constant(value=pat.value)]))
+        if isinstance(pat, ast.MatchAs):
+            t = True if pat.pattern is None else self._pattern(subj, pat.pattern, binds)
+            if pat.name is not None:
+                binds.append((pat.name, subj))
+            return t
+        if isinstance(pat, ast.MatchOr):
+            ts = [self._pattern(subj, q, []) for q in pat.patterns]
+            if any(t is None for t in ts):
+                return None
+            if any(t is True for t in ts):
+                return True
+            return loc(ast.BoolOp(op=ast.Or(), values=ts))
+        if isinstance(pat, ast.MatchClass) and not pat.patterns and not pat.kwd_attrs:
+            return loc(ast.Call(func=ast.Name(id="isinstance", ctx=ast.Load()), args=[subj, pat.cls], keywords=[]))
+        if isinstance(pat, ast.MatchSequence) and isinstance(subj, (ast.Tuple, ast.List)) and len(subj.elts) == len(pat.patterns) \
+                and not any(isinstance(q, ast.MatchStar) for q in pat.patterns):
+            ts = [self._pattern(e, q, binds) for e, q in zip(subj.elts, pat.patterns)]
+            if any(t is None for t in ts):
+                return None
+            ts = [t for t in ts if t is not True]
+            return True if not ts else (ts[0] if len(ts) == 1 else loc(ast.BoolOp(op=ast.And(), values=ts)))
+        return None
+
+    def _match(self, st):
+        for case in st.cases:
+            binds = []
+            t = self._pattern(st.subject, case.pattern, binds)
+            c = None if t is None else (True if t is True else self.decide(t))
+            if c is None:
+                for n in _assigned_names(st):
+                    if n not in self.pinned:
+                        self.env[n] = Unknown("assigned under a match pattern that is not lowered")
+                self._forget_mutated(st)
+                return
+            if not c:
+                continue
+            for name, expr in binds:
+                self.env[name] = self.ev(expr)
+            if case.guard is not None:
+                g = self.decide(case.guard)
+                if g is None:
+                    for n in _assigned_names(st):
+                        if n not in self.pinned:
+                            self.env[n] = Unknown("assigned under an undecided match guard")
+                    return
+                if not g:
+                    continue
+            self.run(case.body)
+            return
 
     # ---- local lists: `L = []`, `L.append(x)`, `a, b = L`; loops
     def _list_method(self, call):
@@ -676,6 +843,12 @@ class PathEval(AutoEvaluator):
             return F.sym(repr(node.value))
         if isinstance(node, ast.Dict) and not node.keys:
             return DictValue({})
+        if isinstance(node, ast.Attribute) and not (isinstance(node.value, ast.Name) and node.value.id not in self.env):
+            base = self._ev(node.value)
+            if isinstance(base, Rec):
+                if node.attr in base.fields:
+                    return base[base.fields.index(node.attr)]
+                return Unknown(f"attribute {node.attr} of a record")
         if isinstance(node, ast.BinOp) and isinstance(node.op, ast.Mult) and isinstance(node.left, (ast.List, ast.Tuple)) and len(node.left.elts) == 1 \
                 and isinstance(node.right, ast.Constant) and isinstance(node.right.value, int) and 0 <= node.right.value <= MAX_UNROLL:
             return (self.ev(node.left.elts[0]),) * node.right.value            # [x] * k: a list of k known items
@@ -762,6 +935,74 @@ class PathEval(AutoEvaluator):
         meth = f.attr if isinstance(f, ast.Attribute) else None
         # a method call on a value of the function (a local, a parameter, an expression) - not on a module such as np
         on_value = meth is not None and (d is None or d.split(".")[0] in self.env)
+        # out=X : the call's value is also stored in X
+        kout = next((k for k in node.keywords if k.arg == "out"), None)
+        if kout is not None:
+            plain = ast.copy_location(ast.Call(func=node.func, args=node.args, keywords=[k for k in node.keywords if k.arg != "out"]), node)
+            v = self._ev(plain)
+            tg = kout.value.elts[0] if isinstance(kout.value, ast.Tuple) and len(kout.value.elts) == 1 else kout.value
+            if isinstance(tg, ast.Name):
+                if tg.id not in self.pinned:
+                    self.env[tg.id] = v
+            else:
+                b = tg
+                while isinstance(b, (ast.Subscript, ast.Attribute)):
+                    b = b.value
+                if isinstance(b, ast.Name) and b.id not in self.pinned:
+                    self.env[b.id] = Unknown("written through out=")
+            return v
+        # np.putmask(a, mask, v) / np.place(a, mask, v): a[mask] = v;  np.copyto(a, v[, where=mask]);  np.add.at / np.subtract.at(a, i, v)
+        if d in ("np.putmask", "np.place") and len(node.args) == 3 and not node.keywords and isinstance(node.args[0], ast.Name):
+            self._assign(ast.copy_location(ast.Subscript(value=node.args[0], slice=node.args[1], ctx=ast.Store()), node), self.ev(node.args[2]), node)
+            return F.sym("None")
+        if d == "np.copyto" and len(node.args) == 2 and isinstance(node.args[0], ast.Name) and all(k.arg == "where" for k in node.keywords):
+            if node.keywords:
+                self._assign(ast.copy_location(ast.Subscript(value=node.args[0], slice=node.keywords[0].value, ctx=ast.Store()), node), self.ev(node.args[1]), node)
+            elif node.args[0].id not in self.pinned:
+                self.env[node.args[0].id] = self.ev(node.args[1])
+            return F.sym("None")
+        if d in ("np.add.at", "np.subtract.at") and len(node.args) == 3 and not node.keywords and isinstance(node.args[0], ast.Name):
+            cur = ast.copy_location(ast.Subscript(value=node.args[0], slice=node.args[1], ctx=ast.Load()), node)
+            op = ast.Add() if d == "np.add.at" else ast.Sub()
+            val = self.ev(ast.fix_missing_locations(ast.copy_location(ast.BinOp(left=cur, op=op, right=node.args[2]), node)))
+            self._assign(ast.copy_location(ast.Subscript(value=node.args[0], slice=node.args[1], ctx=ast.Store()), node), val, node)
+            return F.sym("None")
+        # a record class of the module (NamedTuple / dataclass / namedtuple): the field values
+        if isinstance(f, ast.Name) and f.id not in self.env:
+            rec = _records(raw_module(self.ctx, self.rel)).get(f.id)
+            if rec is not None and not any(isinstance(a, ast.Starred) for a in node.args) and all(k.arg for k in node.keywords):
+                fields, dflt = rec
+                vals = dict(zip(fields, [self.ev(a) for a in node.args]))
+                vals.update({k.arg: self.ev(k.value) for k in node.keywords})
+                for x in fields:
+                    if x not in vals:
+                        if x not in dflt:
+                            raise Unsupported("record field without a value")
+                        vals[x] = self.ev(dflt[x])
+                if len(node.args) <= len(fields) and set(vals) == set(fields):
+                    r = Rec(vals[x] for x in fields)
+                    r.fields = tuple(fields)
+                    return r
+        # tuple(x) / list(x) of a sequence whose items are known
+        if d in ("tuple", "list") and len(node.args) == 1 and not node.keywords and d not in self.env and not isinstance(node.args[0], ast.Starred):
+            x = self.ev(node.args[0])
+            if isinstance(x, tuple):
+                return tuple(x)
+        # a local bound to a method of a value (`level = idx.get_level_values`): calling it is the method call
+        if isinstance(f, ast.Name) and f.id in self.env and not isinstance(self.env[f.id], tuple):
+            h = unfn_m(self.env[f.id])
+            if h is not None and h[0].startswith("attr:") and len(h[1]) == 1:
+                saved = self.env.get("@recv")
+                self.env["@recv"] = h[1][0]
+                try:
+                    call = ast.Call(func=ast.Attribute(value=ast.Name(id="@recv", ctx=ast.Load()), attr=h[0][5:], ctx=ast.Load()),
+                                    args=node.args, keywords=node.keywords)
+                    return self._ev(ast.fix_missing_locations(ast.copy_location(call, node)))
+                finally:
+                    if saved is None:
+                        self.env.pop("@recv", None)
+                    else:
+                        self.env["@recv"] = saved
         leaf = d.split(".")[-1] if d else None
         lib = d is not None and "." in d and d.split(".")[0] in ("np", "numpy", "operator") and d.split(".")[0] not in self.env
         plain2 = len(node.args) == 2 and not node.keywords and not any(isinstance(a, ast.Starred) for a in node.args)
@@ -782,6 +1023,11 @@ class PathEval(AutoEvaluator):
                 b = b if is_boolean(b) else F.fn("cmp:NotEq", need(b), F.const(0))
             op = (_UF_BIT.get(leaf) or _UF_LOGICAL.get(leaf) or _OP_BIT[leaf])()
             return _binop18(ast.BinOp(left=node.args[0], op=op, right=node.args[1]), a, b, self)
+        if lib and plain2 and leaf in _UF_ARITH:
+            # np.add(x, y) / operator.add(x, y) ... are x + y ...
+            return self._ev(ast.fix_missing_locations(ast.copy_location(ast.BinOp(left=node.args[0], op=_UF_ARITH[leaf](), right=node.args[1]), node)))
+        if lib and plain1 and leaf in ("negative", "neg"):
+            return self._ev(ast.fix_missing_locations(ast.copy_location(ast.UnaryOp(op=ast.USub(), operand=node.args[0]), node)))
         if lib and plain1 and leaf in ("invert", "bitwise_not", "logical_not", "inv", "not_"):
             (a,), _ = self._args(node)
             if isinstance(a, tuple):
@@ -884,6 +1130,17 @@ class PathEval(AutoEvaluator):
             callee = self._helper(f.id)
             if callee is not None:
                 return self._inline(callee, node)
+            imp = _imports(self.ctx, self.rel)[1].get(f.id)          # from package.module import helper
+            if imp is not None:
+                callee = self._foreign(imp[0], imp[1])
+                if callee is not None:
+                    return self._inline(callee, node, rel=imp[0])
+        if isinstance(f, ast.Attribute) and isinstance(f.value, ast.Name) and f.value.id not in self.env:
+            other = _imports(self.ctx, self.rel)[0].get(f.value.id)     # module.helper with `module` imported from the package
+            if other is not None:
+                callee = self._foreign(other, f.attr)
+                if callee is not None:
+                    return self._inline(callee, node, rel=other)
         # method call on a local object
         if on_value and meth not in IDENT_METHODS:
             pos, kw = self._args(node)
@@ -910,7 +1167,14 @@ class PathEval(AutoEvaluator):
             return raw_func(self.ctx, self.rel, name)
         return None
 
-    def _inline(self, callee, node):
+    def _foreign(self, rel, name):
+        """a helper (not an interface function) of another module of the package"""
+        m = raw_module(self.ctx, rel)
+        if name in m.funcs and not name.startswith("__") and not _is_public(m, name):
+            return raw_func(self.ctx, rel, name)
+        return None
+
+    def _inline(self, callee, node, rel=None):
         if self.depth >= MAX_DEPTH:
             raise Unsupported("helper nesting too deep")
         pos, kw = self._args(node)
@@ -935,7 +1199,8 @@ class PathEval(AutoEvaluator):
                     raise Unsupported("helper call misses an argument")
                 bound[p] = self._need(defaults[p])
         env.update(bound)
-        sub = PathEval(callee, self.ctx, self.rel, self.decisions, self.trace, self.sites, self.depth + 1, env=env)
+        sub = PathEval(callee, self.ctx, rel or self.rel, self.decisions, self.trace, self.sites, self.depth + 1, env=env)
+        sub.escaped = self.escaped
         sub.run(callee.body)
         if sub.raised is not None:
             self.raised = sub.raised
